@@ -23,6 +23,9 @@ pub enum Init {
     UnderFile,
     /// the parent directory does not exist
     NoParent,
+    /// the name is a symbolic link whose target does not exist: the name exists (exclusive
+    /// creation refuses it), opening it for writing creates the target
+    DanglingSymlink,
 }
 
 #[derive(Clone, Debug, Serialize, Deserialize, PartialEq)]
@@ -44,6 +47,9 @@ pub enum C17Case {
     /// Append mode while somebody else appends to the same file between work() calls: the
     /// file must be old content ++ everything in the order it was written.
     AppendShared { kind: u8, n: u16, seed: u32, chunk: u16, every: u8 },
+    /// several sinks are constructed in Create mode on the same absent path at the same
+    /// moment: "create fails if and only if the file exists" => exactly one succeeds
+    CreateRace { kind: u8, threads: u8, rounds: u8 },
 }
 
 fn mode_str(m: u8) -> &'static str {
@@ -61,6 +67,7 @@ fn init_strategy() -> impl Strategy<Value = Init> {
         1 => Just(Init::Directory),
         1 => Just(Init::UnderFile),
         1 => Just(Init::NoParent),
+        1 => Just(Init::DanglingSymlink),
     ]
 }
 
@@ -78,6 +85,9 @@ fn prepare(sc: &Scratch, init: Init) -> std::path::PathBuf {
             return sc.path("plain").join("out.bin");
         }
         Init::NoParent => return sc.path("missing-dir").join("out.bin"),
+        Init::DanglingSymlink => {
+            std::os::unix::fs::symlink(sc.path("target-that-does-not-exist.bin"), &p).unwrap();
+        }
     }
     p
 }
@@ -87,6 +97,8 @@ fn model(mode: u8, init: Init) -> Option<Vec<u8>> {
     match init {
         Init::Directory | Init::UnderFile | Init::NoParent => None,
         Init::Absent => Some(vec![]), // every mode creates the file (Create: only if absent)
+        // the name exists: Create refuses it (O_EXCL semantics); the other modes create the target
+        Init::DanglingSymlink => if mode % 3 == 0 { None } else { Some(vec![]) },
         Init::Empty | Init::NonEmpty => {
             let old = if init == Init::NonEmpty { OLD.to_vec() } else { vec![] };
             match mode % 3 {
@@ -159,7 +171,8 @@ impl Prop for C17 {
         let blocked = (0u8..3, prop_oneof![1u32..3000, 20_000u32..120_000], any::<u32>(), 1u16..20_000, prop::bool::weighted(0.25))
             .prop_map(|(kind, n, seed, piece, dev_full)| C17Case::Blocked { kind, n, seed, piece, dev_full });
         let shared = (0u8..3, 1u16..2000, any::<u32>(), 1u16..300, 1u8..5).prop_map(|(kind, n, seed, chunk, every)| C17Case::AppendShared { kind, n, seed, chunk, every });
-        prop_oneof![8 => modes, kw => kills, 6 => durable, 1 => blocked, 1 => shared].boxed()
+        let race = (0u8..3, 2u8..9, 1u8..12).prop_map(|(kind, threads, rounds)| C17Case::CreateRace { kind, threads, rounds });
+        prop_oneof![16 => modes, 2 => kills, 12 => durable, 2 => blocked, 2 => shared, 1 => race].boxed()
     }
     fn cases(&self, tier: Tier) -> u64 {
         tier.pick(4_000, 40_000)
@@ -167,7 +180,7 @@ impl Prop for C17 {
     fn fixed_cases(&self, _tier: Tier) -> Vec<C17Case> {
         let mut v = Vec::new();
         for mode in 0..3 {
-            for init in [Init::Absent, Init::Empty, Init::NonEmpty, Init::Directory, Init::UnderFile, Init::NoParent] {
+            for init in [Init::Absent, Init::Empty, Init::NonEmpty, Init::Directory, Init::UnderFile, Init::NoParent, Init::DanglingSymlink] {
                 for kind in 0..3 {
                     // new data longer than, shorter than, and absent against the old content
                     for n in [700u16, 3, 0] {
@@ -179,11 +192,12 @@ impl Prop for C17 {
         v
     }
     fn exhaustive_subdomains(&self) -> Vec<String> {
-        vec!["open modes: {Create, Overwrite, Append} x {absent, empty, non-empty, directory, path under a regular file, missing parent} x {FileSink<u8>, FileSink<f32>, NoCopyFileSink<String>} x new data {longer than the old content, shorter, none}".into()]
+        vec!["open modes: {Create, Overwrite, Append} x {absent, empty, non-empty, directory, path under a regular file, missing parent, dangling symbolic link} x {FileSink<u8>, FileSink<f32>, NoCopyFileSink<String>} x new data {longer than the old content, shorter, none}".into()]
     }
     fn run(&self, case: &C17Case, ctx: &mut Ctx) {
         match case {
             C17Case::Mode { mode, init, kind, n, seed, chunk } => run_mode(*mode, *init, *kind, *n as usize, *seed as u64, *chunk as usize, ctx),
+            C17Case::CreateRace { kind, threads, rounds } => run_create_race(*kind, *threads as usize, *rounds as usize, ctx),
             C17Case::AppendShared { kind, n, seed, chunk, every } => run_append_shared(*kind, *n as usize, *seed as u64, *chunk as usize, *every as usize, ctx),
             C17Case::Blocked { kind, n, seed, piece, dev_full } => run_blocked(*kind, *n as usize, *seed as u64, *piece as usize, *dev_full, ctx),
             C17Case::Durable { kind, n, seed, chunk_max, stream } => run_durable(*kind, *n as usize, *seed as u64, *chunk_max as u64, *stream, ctx),
@@ -193,7 +207,7 @@ impl Prop for C17 {
         }
     }
     fn rule(&self) -> String {
-        "enumerated: open modes x initial file states x sink kinds x {700, 3, 0} units of new data (162 combinations), plus generated data lengths/chunkings; fault enumeration: a child process streams a seeded sequence through the sink and acknowledges the running count of consumed samples (raw write(2)) after every work() that returns; the parent SIGKILLs it after a generated number of acknowledgements plus a generated busy-wait. Oracle: constructor result and final file content equal a model of the documented modes (Create fails iff the path exists; Overwrite leaves exactly the new data; Append keeps old content and appends, creating the file if absent; structural impossibilities are Err); after a kill the file is (old content for Append ++) a byte prefix of the serialised stream, at least as long as the last acknowledged count. In-process crash-point enumeration ('durable' cases): FileSink<u8|f32|Complex|u32> on streams of 8 KiB, 64 KiB, 1 MiB and the default 4 MB, fed batches of 1..200 000 samples; after *every* work() that returns, the file is read through a second descriptor (exactly what a SIGKILL at that instant leaves behind, since the page cache survives the process) and must hold all consumed samples and be a prefix of the serialised stream. Append with a second appender ('append-shared'): another handle appends markers to the file between work() calls; the file must be the old content followed by everything in the order it was written. Crash points inside a call ('blocked' cases): the destination is a FIFO drained by the harness in pieces, so the sink blocks in write(2) mid-call while the harness samples how much of the stream counts as consumed: bytes consumed <= bytes read from the FIFO + pipe capacity (+ one packet for the packet sink) at every observation - an invariant of any sink that consumes after writing, so timing can hide a violation but not produce one; and /dev/full, where the write fails: nothing of that call may count as consumed (stream sink). Non-trivial: a FIFO case with more data than the pipe holds, a durable case with >= 2 work() returns, a mode case whose initial state is not 'absent', or a kill that landed after >= 1 acknowledgement and before the end; distinct = hash of the case (kill timing is not part of the hash).".into()
+        "enumerated: open modes x initial file states x sink kinds x {700, 3, 0} units of new data (189 combinations), plus generated data lengths/chunkings; fault enumeration: a child process streams a seeded sequence through the sink and acknowledges the running count of consumed samples (raw write(2)) after every work() that returns; the parent SIGKILLs it after a generated number of acknowledgements plus a generated busy-wait. Oracle: constructor result and final file content equal a model of the documented modes (Create fails iff the path exists; Overwrite leaves exactly the new data; Append keeps old content and appends, creating the file if absent; structural impossibilities are Err); after a kill the file is (old content for Append ++) a byte prefix of the serialised stream, at least as long as the last acknowledged count. In-process crash-point enumeration ('durable' cases): FileSink<u8|f32|Complex|u32> on streams of 8 KiB, 64 KiB, 1 MiB and the default 4 MB, fed batches of 1..200 000 samples; after *every* work() that returns, the file is read through a second descriptor (exactly what a SIGKILL at that instant leaves behind, since the page cache survives the process) and must hold all consumed samples and be a prefix of the serialised stream. Create raced from 2-8 threads on one absent path: exactly one constructor succeeds. Append with a second appender ('append-shared'): another handle appends markers to the file between work() calls; the file must be the old content followed by everything in the order it was written. Crash points inside a call ('blocked' cases): the destination is a FIFO drained by the harness in pieces, so the sink blocks in write(2) mid-call while the harness samples how much of the stream counts as consumed: bytes consumed <= bytes read from the FIFO + pipe capacity (+ one packet for the packet sink) at every observation - an invariant of any sink that consumes after writing, so timing can hide a violation but not produce one; and /dev/full, where the write fails: nothing of that call may count as consumed (stream sink). Non-trivial: a FIFO case with more data than the pipe holds, a durable case with >= 2 work() returns, a mode case whose initial state is not 'absent', or a kill that landed after >= 1 acknowledgement and before the end; distinct = hash of the case (kill timing is not part of the hash).".into()
     }
     fn assumptions(&self) -> Vec<String> {
         vec![
@@ -272,6 +286,50 @@ fn run_mode(mode: u8, init: Init, kind: u8, n: usize, seed: u64, chunk: usize, c
                     format!("{what}: file has {} bytes, model says {} (first difference at {:?})", got.len(), pre.len(), got.iter().zip(pre.iter()).position(|(a, b)| a != b)),
                 );
             }
+        }
+    }
+}
+
+/// Create mode from several threads at once: exclusive creation lets exactly one through.
+fn run_create_race(kind: u8, threads: usize, rounds: usize, ctx: &mut Ctx) {
+    ctx.class("create-race");
+    ctx.nontrivial();
+    let sc = Scratch::new();
+    for round in 0..rounds.max(1) {
+        let path = sc.path(&format!("race{round}.bin"));
+        let barrier = std::sync::Barrier::new(threads.max(2));
+        let winners = std::sync::atomic::AtomicUsize::new(0);
+        std::thread::scope(|s| {
+            for _ in 0..threads.max(2) {
+                s.spawn(|| {
+                    barrier.wait();
+                    let ok = match kind % 3 {
+                        2 => {
+                            let (_w, rd) = rustradio::stream::new_nocopy_stream::<String>();
+                            NoCopyFileSink::<String>::new(rd, &path, rustradio::file_sink::Mode::Create).is_ok()
+                        }
+                        0 => {
+                            let (_w, rd) = rustradio::stream::new_stream::<u8>();
+                            FileSink::<u8>::new(rd, &path, rustradio::file_sink::Mode::Create).is_ok()
+                        }
+                        _ => {
+                            let (_w, rd) = rustradio::stream::new_stream::<f32>();
+                            FileSink::<f32>::new(rd, &path, rustradio::file_sink::Mode::Create).is_ok()
+                        }
+                    };
+                    if ok {
+                        winners.fetch_add(1, std::sync::atomic::Ordering::SeqCst);
+                    }
+                });
+            }
+        });
+        let w = winners.load(std::sync::atomic::Ordering::SeqCst);
+        if w != 1 {
+            ctx.fail(
+                "C17/create-race/winners".to_string(),
+                format!("{} threads constructed a {} sink in Create mode on one absent path at once: {w} constructors succeeded (round {round})", threads.max(2), kind_str(kind)),
+            );
+            return;
         }
     }
 }
